@@ -49,9 +49,9 @@ func StripHostPort(h string) string {
 		return strings.TrimSuffix(h, ".")
 	}
 
-	host, _, err := net.SplitHostPort(h)
-	if err != nil {
-		return h // on error, return unchanged
+	host, port, err := net.SplitHostPort(h)
+	if err != nil || !validOptionalPort(":"+strings.TrimSuffix(port, ".")) {
+		return h // on error, or when what follows the last colon is not a port, return unchanged
 	}
 	return strings.TrimSuffix(host, ".")
 }
